@@ -206,14 +206,13 @@ def gen_spec(rng, clean=False, max_nodes=5):
             t['items'] = a
             top.insert(rng.randint(0, len(top)), {'kind': t['kind'], 'items': b})
     if clean and nn >= 2 and rng.random() < 0.45:
-        # several <library_nodes> elements: each element has its own retry loop, so a node may only instantiate nodes
-        # of its own or of an EARLIER element (see notes/C07.md); inside an element the definition order is free
-        byrank = sorted(range(nn), key=lambda i: rank[i])
+        # several <library_nodes> elements: a node may instantiate nodes of its own, of an earlier and of a LATER
+        # element, in any definition order (one retry loop over all of them since the /repo fix of round 8)
+        idxs = list(range(nn))
+        rng.shuffle(idxs)
         cut = rng.randint(1, nn - 1)
-        first = [libs['nodes'][i] for i in byrank[:cut]]
-        second = [libs['nodes'][i] for i in byrank[cut:]]
-        rng.shuffle(first)
-        rng.shuffle(second)
+        first = [libs['nodes'][i] for i in idxs[:cut]]
+        second = [libs['nodes'][i] for i in idxs[cut:]]
         k = [i for i, t in enumerate(top) if t['kind'] == 'nodes'][0]
         top[k]['items'] = first
         top.insert(rng.randint(k + 1, len(top)), {'kind': 'nodes', 'items': second})
